@@ -1,5 +1,6 @@
 //! Deterministic simulation with fault injection for pkhuong/woodpile.
 //! See /verif/DESIGN.md.
+#![allow(dead_code, private_interfaces)]
 mod driver;
 mod json;
 mod minimise;
@@ -25,7 +26,7 @@ pub const PROPS: &[&str] = &[
     "C18", "C19", "C20",
 ];
 
-pub static WORLDS: &[&'static dyn World] = &[&w_iovec::IovecWorld, &w_codec::CodecWorld, &w_codec::LongWorld, &w_stream::StreamWorld, &w_threads::ThreadsWorld, &w_vtime::VtimeWorld];
+pub static WORLDS: &[&'static dyn World] = &[&w_iovec::IovecWorld, &w_codec::CodecWorld, &w_codec::LongWorld, &w_stream::StreamWorld, &w_threads::ThreadsWorld, &w_vtime::VtimeWorld, &w_threads::NfsThreadsWorld];
 
 const DEFAULT_SEED: u64 = 20261004;
 
@@ -34,7 +35,7 @@ const DEFAULT_SEED: u64 = 20261004;
 pub fn crash_property(world: &str) -> &'static str {
     match world {
         "threads" => "C13",
-        "vtime" => "C19",
+        "vtime" | "nfsthreads" => "C19",
         _ => "C05",
     }
 }
@@ -93,12 +94,12 @@ fn jobs_for(prop: &'static str, thorough: bool, scale: f64) -> (Vec<Job>, &'stat
         "C09" => (vec![mk("codec", 1.0), mk("longrun", 1.0)], "exploration"),
         "C06" | "C08" => (vec![mk("stream", 1.0)], "exploration"),
         "C13" => (vec![mk("threads", 1.0)], "exploration"),
-        "C18" => (vec![mk("threads", 1.0)], "fault_enumeration"),
+        "C18" => (vec![mk("threads", 1.0), mk("nfsthreads", 1.0)], "fault_enumeration"),
         "C14" => (vec![mk("vtime", 1.0)], "exploration"),
         // The base time lives in an AtomicBaseTime that concurrent observers and
         // scanners update: its monotonic filter under overlapping writers is
         // part of "never decreases".
-        "C19" => (vec![mk("vtime", 1.0), mk("threads", 0.3)], "exploration"),
+        "C19" => (vec![mk("vtime", 1.0), mk("threads", 0.3), mk("nfsthreads", 1.0)], "exploration"),
         "C05" => {
             let mut jobs = vec![mk("iovec", 0.7), mk("codec", 0.6), mk("stream", 0.4)];
             if thorough {
